@@ -203,6 +203,15 @@ def run(prog, res):
           compared += 1
           sigs = [spelling.chain_signature(h, text, s, fam, arms=arms)
                   for s in sp]
+          # a spelling that lands in an arm that only raises is rejected
+          # there: the arm defines the accepted set, it is not behaviour
+          def rejected(sig):
+            last = sig[-1] if sig else None
+            return bool(last) and last[0] == 'T' and last[1] < len(
+                arms) and validate._always_raises(arms[last[1]].body)
+          sigs = [x for x in sigs if not rejected(x)]
+          if len(sigs) < 2:
+            continue
           if any(x != sigs[0] for x in sigs):
             bad.append((cls, sp, sigs))
         key = '%s|%s@%s' % (fn.qualname, text, norm_text(tests[0])[:40])
